@@ -17,7 +17,9 @@ import re
 from .. import cg, core, vt
 
 HASH = re.compile(r'hash_(map|set)::|hash::(map|set)::')
-INSENSITIVE = {'any', 'all', 'count', 'min', 'max', 'sum', 'product', 'sorted', 'sorted_by', 'sorted_by_key', 'sorted_unstable', 'min_by_key', 'max_by_key', 'is_empty', 'len', 'contains', 'size_hint', 'unique'}
+# min_by / max_by are in the same class as min_by_key / max_by_key: the selected element is independent of the iteration order
+# up to ties of the comparator (ties among the elements of a *set* that compare equal on the key — same caveat for all four)
+INSENSITIVE = {'any', 'all', 'count', 'min', 'max', 'sum', 'product', 'sorted', 'sorted_by', 'sorted_by_key', 'sorted_unstable', 'min_by_key', 'max_by_key', 'min_by', 'max_by', 'is_empty', 'len', 'contains', 'size_hint', 'unique'}
 ADAPTERS = {'map', 'filter', 'cloned', 'copied', 'flat_map', 'chain', 'into_iter', 'filter_map', 'inspect', 'peekable', 'zip', 'enumerate', 'skip', 'take', 'rev', 'by_ref', 'flatten', 'map_while', 'iter', 'keys', 'values', 'drain', 'difference', 'intersection', 'union', 'skip_while', 'take_while', 'step_by', 'fuse', 'scan', 'cycle', 'clone', 'borrow', 'deref', 'as_ref', 'from', 'into'}
 ORDERED_TARGETS = ('HashSet<', 'HashMap<', 'BTreeSet<', 'BTreeMap<', 'hash::set::HashSet', 'hash::map::HashMap', 'btree::set::BTreeSet', 'btree::map::BTreeMap', 'collections::HashSet', 'collections::HashMap', 'collections::BTreeSet', 'collections::BTreeMap')
 NONDET = re.compile(r'SystemTime::now|Instant::now|\brand::|RandomState::new|thread::current|env::var\b|env::vars|env::var_os|process::id|getrandom|fastrand|Uuid::new|thread_rng|current_exe|temp_dir|ThreadId')
